@@ -60,6 +60,21 @@ CLAIMED = {
          "For every workload a crash was injected after every step of the run and followed by a bounce after each listed downtime (plus bounce-without-crash, repeated cycles, two victims selected by regex, and random schedules): when Sim::crash returned no task of the victim was alive and its UDP, TCP listener, TCP stream and multicast tables were empty; while down its code made no progress and it sent nothing; peers blocked on established streams or with a connection request queued at the victim were unblocked with EOF / ConnectionReset / ConnectionRefused within latency + 3 steps; connects and datagrams arriving during the downtime never reached the new incarnation; each bounce ran the software factory exactly once and the new incarnation re-bound its fixed ports and accepted again; hosts not talking to the victim behaved exactly as in a crash-free twin run.",
          "Fixed latency >= 1 ms, fail_rate 0 and fixed host order (needed for the twin comparison); victims' main futures never return; events arriving in the very first step of a new incarnation are not asserted; known finding F-C04-2 (peer writer parked on flow control when only a FIN is sent) is excluded in the main search and asserted by its replay.",
          "DESIGN.md §6 C04"),
+ "C06": ("exploration",
+         "bounded-exhaustive enumeration of per-packet fate vectors (deliver / hold 2 rounds / drop) over the first n emitted packets of small transfers, property-based random fate walks on a harness-owned wire (NetWire driver), and end-to-end runs through fixture::ClientServer / fixture::lo with table-driven rules; byte-FIFO oracle per direction",
+         "Every fate vector over the first 8 (11 thorough) packets of 9 small programs was executed against the real stack, plus random walks over kernel configurations (MTU/MSS, buffer caps down to 1 byte, retransmit parameters), write/read size plans, half-close, reader pauses and per-packet drop/delay/reorder plans, also inside the built-in fixtures: bytes read were always a prefix of the bytes written with EOF only after everything written; within the retransmit budget no operation failed, every byte and EOF arrived for every reader buffer size and no task stayed parked (a stall is re-run with a 10x bound before it is reported); beyond the budget failures surfaced as connection errors, never as silent loss.",
+         "One egress_all is one retransmit tick; the budget actually used is tighter than the property's literal bound; loopback has no packet log; known findings F-C06-1..5 are tolerated in the main search only while listed as known and are asserted by their committed replays.",
+         "DESIGN.md §6 C06"),
+ "C16": ("exploration",
+         "property-based testing (proptest) on the NetWire driver with per-round monitors on the wire (packet log) and on netstat snapshots",
+         "No counterexample among generated configurations (mtu near the header size, loopback_mtu, asymmetric and sub-MSS caps, v4/v6) and traffic with delayed ACKs, reordering and bounded loss: every TCP segment's payload stayed within the MSS of the interface it left from, Send-Q and Recv-Q never exceeded send_buf_cap / recv_buf_cap on either host, bytes in flight never exceeded the window last delivered to the sender, try_write returned WouldBlock exactly at the cap and succeeded again after ACKs, and UDP payloads above the MTU limit were rejected without emitting a packet while payloads within it arrived intact.",
+         "MSS and window clauses are not observable on the loopback path (segments never leave the kernel); a FIN is not counted as a byte in flight; liveness is left to C06.",
+         "DESIGN.md §6 C16"),
+ "C18": ("exploration",
+         "property-based testing (proptest) of generated submission/drain/clock/crash action sequences on rings driven directly (harness-owned clock) and inside a Sim, with an exactly-once multiset oracle, a visibility-time oracle and a differential twin filesystem driven through the synchronous shim in completion order",
+         "No counterexample (other than the listed known finding) among generated action sequences over 1-2 rings and 1-3 files (reads, writes, fsyncs, cancels of pending/completed/foreign/bogus targets, unsupported flags, full-queue pushes, all submit variants, clock advances at exact latency boundaries, partial/split/late drains, interleaved shim writes, close/reopen with ops in flight, ring drop, crash) under none/fixed/ranged latency and page cache on/off: every accepted submission produced exactly one completion with its user_data, no completion was visible before its minimum latency, results, buffers and final contents equalled the synchronous API applied in completion order, cancelled reads left their buffer untouched, and after a crash no earlier submission completed or took effect; the same inside a Sim with AsyncFd::readable loops and Sim::crash/bounce.",
+         "Handles are opened read+write in the main search (known finding F-C18-1 concerns ring ops on handles with a narrower access mode and is asserted by its replays); fault injection, torn writes and misaligned O_DIRECT are excluded because the twin cannot share the Fs RNG; entries of a dropped ring are exempt from exactly-once.",
+         "DESIGN.md §6 C18"),
 }
 
 PENDING_REASON = "check not built yet in this round (planned, see DESIGN.md §6); not claimed until its check exists and has been shown silent on the unchanged tree"
